@@ -29,12 +29,15 @@ BOUNDS = {"quick": dict(rows="2 (sloped layouts) / 3 (flat layout)", layouts=["s
                            dataclass="48 hourly rows, 3 designated readings may be exactly 0")}
 STUBS = ["numba kernels de-jitted", "model from a concrete stored document", "SufficiencyCriteria._check_extreme_values -> no-op (dataclass case)"]
 MODELS_USED = ["symreal ExtensionArray", "symnp.isfinite"]
-ASSUMPTIONS = ["hourly (ElasticNet/scalers) and CalTRACK hourly (patsy) are outside the claim",
+ASSUMPTIONS = ["hourly model: stored model written by hand in the to_dict() layout (fitting does not run in the pinned environment), concrete weather, every usage reading symbolic; "
+               "the sklearn scalers are replaced by affine stand-ins with the stored parameters (a re-fit is recorded and makes the scaler depend on the data it was handed)",
+               "CalTRACK hourly (patsy) is outside the claim",
                "dataclass case: all readings except three designated ones are assumed non-zero (each possible zero doubles the paths)",
                "history cases: the days of the period share one symbolic temperature",
                "billing aggregation compared for equal NaN masks only: blanking a day legitimately removes that day's prediction from a monthly sum"]
 EXPECTED_REGIMES = ["observed NaN on a predicted-able row", "observed present", "heating regime", "flat regime",
-                    "same number of usage gaps at different days in consecutive calls", "zero electricity reading"]
+                    "same number of usage gaps at different days in consecutive calls", "zero electricity reading",
+                    "hourly model: usage column absent", "hourly model: usage reading missing", "hourly model: span across a daylight-saving change"]
 COLS = ["predicted", "predicted_unc", "heating_load", "cooling_load"]
 
 
@@ -54,7 +57,7 @@ def cases(tier, seed):
         out = [f"{lay}/{ik}/2" for lay in ("single-v", "wdwe", "season") for ik in ("pacific-dst", "gap")]
         out += ["single/pacific-dst/3", "single/unsorted/3"]
         out += ["billing-agg/flat/3", "billing-agg/v/2"]
-    out += ["history/wdwe-flat/5", "history/season/5", "dataclass/daily/elec"]
+    out += ["history/wdwe-flat/5", "history/season/5", "dataclass/daily/elec", "hourly/standardscaler/x", "hourly/robustscaler/x"]
     return out
 
 
@@ -124,6 +127,8 @@ def run_case(case: Case, name: str):
         return run_history(case, ik, int(n))
     if lay == "dataclass":
         return run_dataclass(case)
+    if lay == "hourly":
+        return run_hourly(case, ik)
     n = int(n)
     if lay == "billing-agg":
         return run_agg(case, ik, n)
@@ -376,5 +381,95 @@ def run_dataclass(case):
     case.sample(dict(feed="hourly electricity, 48 rows", paths=len(paths)))
 
 
+
+# ------------------------------------------------------------------ hourly model (usage symbolic, weather concrete)
+
+HOURLY_SPANS = {"spring": ("2021-03-12", 4), "autumn": ("2021-11-05", 4), "summer": ("2021-07-01", 3)}
+
+
+def _hourly_runs(scaling, span, env, states, absent):
+    """real run (sklearn scalers untouched): temperature-only prediction vs prediction with the usage column of the witness"""
+    from . import hourlyref as H
+    start, days = HOURLY_SPANS[span]
+    a = H.model(scaling=scaling).predict(H.reporting(start, days, usage=False))
+    d = H.reporting(start, days, usage=not absent)
+    if not absent:
+        n = len(d._df)
+        d._df["observed"] = np.array([np.nan if states.get(str(i)) == "nan" else float(env.get(f"o{i}", 1.0)) for i in range(n)])
+    b = H.model(scaling=scaling).predict(d)
+    return a, b
+
+
+def replay_hourly(inp):
+    import logging
+    logging.disable(logging.CRITICAL)
+    a, b = _hourly_runs(inp["scaling"], inp["span"], inp["env"], inp["states"], inp["absent"])
+    pr = []
+    if list(a.index) != list(b.index):
+        pr.append("rows differ between the run without and with usage")
+    else:
+        x, y = a["predicted"].to_numpy(dtype=float), b["predicted"].to_numpy(dtype=float)
+        bad = [i for i in range(len(x)) if not ((x[i] != x[i] and y[i] != y[i]) or x[i] == y[i])]
+        if bad:
+            i = bad[0]
+            pr.append(f"{len(bad)} of {len(x)} hourly predictions depend on the usage column, e.g. {a.index[i]}: {x[i]} without usage, {y[i]} with it")
+    return bool(pr), "; ".join(pr)
+
+
+def run_hourly(case, scaling):
+    """HourlyModel._predict (real feature pipeline, real ElasticNet) on a stored model that knows every month x weekday;
+    the weather is concrete, every usage reading is symbolic (three designated readings may be missing, or the column
+    absent).  Every prediction must be the number the temperature-only run gives."""
+    import opendsm.eemeter.models.hourly.model as hm
+    from . import hourlyref as H
+    spans = list(HOURLY_SPANS) if case.tier == "thorough" else ["spring", "summer"]
+    case.inputs = [z3.Real(f"o{i}") for i in range(24 * 5)]
+
+    def run():
+        span = F.choose("span", spans)
+        start, days = HOURLY_SPANS[span]
+        m = H.model(scaling=scaling)
+        ref = m.predict(H.reporting(start, days, usage=False))
+        m._feature_scaler, m._y_scaler = H.Affine(m._feature_scaler), H.Affine(m._y_scaler)
+        absent = F.choose("usage_column", ["present", "absent"]) == "absent"
+        d = H.reporting(start, days, usage=not absent)
+        states = {}
+        if not absent:
+            n = len(d._df)
+            O = [SReal(z3.Real(f"o{i}")) for i in range(n)]
+            for i in (2, 30, n - 1):  # one reading on the first day, one on the transition day, the last one
+                states[str(i)] = F.choose(f"o_state{i}", ["val", "nan"])
+                if states[str(i)] == "nan":
+                    O[i] = NAN
+            d._df["observed"] = SymArray(O)
+        out = m._predict(d)
+        return span, absent, states, ref, out, m._feature_scaler.refits + m._y_scaler.refits
+
+    paths = case.explore(run)
+    for p in paths:
+        if p.outcome != "ret":
+            case.rep["harness_errors"].append(f"hourly predict raised {p.value!r}")
+            continue
+        span, absent, states, ref, out, refits = p.value
+        rp = ("hourly", (lambda sp, ab, st: lambda mdl: dict(scaling=scaling, span=sp, absent=ab, states=st, env=model_env(mdl, case.inputs)))(span, absent, states))
+        case.twin(p)
+        same_rows = list(out.index) == list(ref.index)
+        case.prove(p, same_rows and refits == 0, "same rows as the temperature-only run; no scaler of the fitted model is re-fitted during predict", replay=rp)
+        if not same_rows:
+            continue
+        eqs = []
+        for x, y in zip(cells(ref["predicted"]), cells(out["predicted"])):
+            if isinstance(y, SReal):
+                eqs.append(to_real(lift(y)) == float(x) if F.finite(x) else z3.BoolVal(False))
+            else:
+                eqs.append(z3.BoolVal((x != x and y != y) or x == y))
+        case.prove(p, z3.And(*eqs), "every hourly prediction equals the temperature-only run's (independent of all usage readings)", replay=rp)
+        case.regime("hourly model: usage column absent", absent)
+        case.regime("hourly model: usage reading missing", "nan" in states.values())
+        case.regime("hourly model: span across a daylight-saving change", span != "summer")
+    case.sample(dict(scaling=scaling, spans=spans, paths=len(paths)))
+
+
+REPLAY["hourly"] = replay_hourly
 REPLAY["history"] = replay_history
 REPLAY["dataclass"] = replay_dataclass
